@@ -3,6 +3,7 @@ import random
 from .common import NONE
 from .drivers_ragged import rnd_val, rnd_slice, BINARY, UNARY
 
+RLV = ["from_array", "from_array", "concat2", "concat3", "pieces", "ufunc", "astype"]
 RL_DTS = ["b1", "i1", "u1", "i2", "i4", "i8", "u4", "f2", "f4", "f8"]
 
 
@@ -51,7 +52,7 @@ def gen_c15(r):
         idx = ["windows", st, [r.randint(s + 1, n) for s in st]]
     else:
         idx = ["all"]
-    return ["rl_getitem", dt, a, idx], {"npint": r.random() < 0.3, "listkind": r.choice(["list", "array"])}, False
+    return ["rl_getitem", dt, a, idx], {"npint": r.random() < 0.3, "listkind": r.choice(["list", "array"]), "via": r.choice(RLV)}, False
 
 
 C16_DTS = ["b1", "i1", "u1", "i2", "i8", "f4", "f8"]
@@ -64,7 +65,7 @@ def gen_c16(r):
     if k == "ufunc":
         a = ["rl", dt, rnd_runs(r, dt, n)]
         if r.random() < 0.15:
-            return ["rl_ufunc", r.choice(UNARY), a, ["none"]], {"how": r.choice(["ufunc", "operator"])}, True
+            return ["rl_ufunc", r.choice(UNARY), a, ["none"]], {"how": r.choice(["ufunc", "operator"]), "via": r.choice(RLV)}, True
         f = r.choice(BINARY)
         ok = r.choice(["rl", "rl", "rl", "py", "py", "np"])
         dt2 = r.choice(C16_DTS)
@@ -82,15 +83,15 @@ def gen_c16(r):
             b = ["py", pk, v]
         if r.random() < 0.4:
             a, b = b, a
-        return ["rl_ufunc", f, a, b], {"how": r.choice(["ufunc", "operator"])}, True
+        return ["rl_ufunc", f, a, b], {"how": r.choice(["ufunc", "operator"]), "via": r.choice(RLV)}, True
     if k == "reduce":
         name = r.choice(["sum", "any", "all", "max", "mean"])
-        return ["rl_reduce", name, dt, rnd_runs(r, dt, n, nan_ok=False, small=True)], {"how": r.choice(["np", "method"])}, False
+        return ["rl_reduce", name, dt, rnd_runs(r, dt, n, nan_ok=False, small=True)], {"how": r.choice(["np", "method"]), "via": r.choice(RLV)}, False
     if k == "hist":
         hdt = r.choice(["i8", "f8", "u1", "i2"])
         return ["rl_hist", hdt, rnd_runs(r, hdt, n, nan_ok=False), r.choice([0, 0, 3, 7])], {}, False
     arrs = [[dt, rnd_runs(r, dt, r.choice([1, 2, 4, 7]))] for _ in range(r.randint(1, 4))]
-    return ["rl_concat", arrs], {}, False
+    return ["rl_concat", arrs], {"via": r.choice(RLV)}, False
 
 
 def rnd_obj(r, dt=None, kinds=("matrix", "ragged", "ragged", "intervals")):
